@@ -1,1 +1,3 @@
--- Props
+import Props.C02
+import Props.C03Tables
+import Props.C03
